@@ -48,6 +48,36 @@ def parseOp (line : String) : Option Op :=
   | ["shuffle", a, b] => do some (.shuffle (← a.toNat?) (← b.toNat?))
   | _ => (parseAct ws).map .act
 
+def actText : Act → String
+  | .new => "new"
+  | .clone a => s!"clone {a}"
+  | .drop a => s!"drop {a}"
+  | .adopt a b => s!"adopt {a} {b}"
+  | .unadopt a b => s!"unadopt {a} {b}"
+  | .store a b => s!"store {a} {b}"
+  | .take a b => s!"take {a} {b}"
+  | .link a b => s!"link {a} {b}"
+  | .unlink a b => s!"unlink {a} {b}"
+  | .downgrade a => s!"downgrade {a}"
+  | .upgrade a => s!"upgrade {a}"
+  | .cloneWeak a => s!"cloneWeak {a}"
+  | .dropWeak a => s!"dropWeak {a}"
+  | .storeWeak a b => s!"storeWeak {a} {b}"
+  | .tryUnwrap a => s!"tryUnwrap {a}"
+  | .dropValue a => s!"dropValue {a}"
+  | .makeMut a => s!"makeMut {a}"
+  | .getMut a => s!"getMut {a}"
+  | .intoRaw a => s!"intoRaw {a}"
+  | .fromRaw a => s!"fromRaw {a}"
+  | .incStrong a => s!"incStrong {a}"
+  | .decStrong a => s!"decStrong {a}"
+  | .ptrEq a b => s!"ptrEq {a} {b}"
+  | .counts a => s!"counts {a}"
+  | .wcounts a => s!"wcounts {a}"
+  | .setPanic a => s!"setPanic {a}"
+  | .upgradeField a => s!"upgradeField {a}"
+  | .cloneField a => s!"cloneField {a}"
+
 def parseHint (s : String) : List Nat :=
   ((s.trimAscii.toString.splitOn " ").filter (· ≠ "")).filterMap (·.toNat?)
 
@@ -106,6 +136,24 @@ def observe (before : Nat) (s : State) : String :=
   s!"T={tc.length}/{tc.sum}/{tp.sum} Ts={showNats (sortNats ts)} E={showErr s.err} roots={showNats s.roots} wroots={showNats s.wroots} " ++
   s!"vals={showNats (s.vals.map (·.vid))} raws={showNats s.raws} heap={" ".intercalate heap}"
 
+/-- the pseudo-op `cleanup`: drop everything the program still holds, one op at a time -/
+partial def cleanupLoop (out : IO.FS.Stream) (s : State) : IO State := do
+  if s.err.isSome then return s
+  let next : Option Act :=
+    if !s.roots.isEmpty then some (.drop 0)
+    else if !s.raws.isEmpty then some (.decStrong 0)
+    else if !s.vals.isEmpty then some (.dropValue 0)
+    else if !s.wroots.isEmpty then some (.dropWeak 0)
+    else none
+  match next with
+  | none => return s
+  | some a =>
+    out.putStrLn ("op " ++ actText a)
+    let before := s.log.length
+    let s' := execOp defaultFuel s (.act a) []
+    out.putStrLn (observe before s')
+    cleanupLoop out s'
+
 partial def loop (h : IO.FS.Stream) (out : IO.FS.Stream) (s : State) : IO Unit := do
   let line ← h.getLine
   if line.isEmpty then return ()
@@ -114,6 +162,9 @@ partial def loop (h : IO.FS.Stream) (out : IO.FS.Stream) (s : State) : IO Unit :
   else if l.startsWith "case" then
     out.putStrLn l
     loop h out {}
+  else if l = "cleanup" then
+    let s' ← cleanupLoop out s
+    loop h out s'
   else if l = "end" then
     out.putStrLn "end"
     loop h out s
